@@ -27,6 +27,9 @@ CHECKS = {
  'C12': dict(text='Coq theorems (P_C12.v): once explored, over ANY continuation the machine stays explored, bounds are frozen, every shell only grows by appending, no bound event is accepted; every shell non-empty after exploration; discard toggle changes only the flag and toggling back restores the state; the discarded view is exactly the rows after end_exp. Tied to the code by traced runs with toggles at arbitrary batch boundaries and resumes, estimator comparison in both views, and bit-for-bit restoration of the statistics on the implementation',
              note='Trusted: Coq kernel, extraction, trace harness. No axioms.',
              tech='Coq proof (invariants over event traces) + trace-replay correspondence with toggles and resumes'),
+ 'C09': dict(text='Coq theorems (P_C09.v): for every bound class (unit cube, ellipsoid, cube-ellipsoid mixture, union with any number of members, phase shift, emulator with any number of networks/layers, neural bound, nautilus bound with any number of neural bounds) read(write b) returns the persisted record (everything except the union may-split flags), and an incremental update of a written group equals a full write when only cache and counters changed. Tied to the code by abstracting real objects of every class/option/history, dumping the groups they write and checking inside Coq that the model writer produces exactly that group, the model reader returns the persisted record, update = full write; unknown attributes fail closed',
+             note='Trusted: Coq kernel, harness abstraction through __dict__, h5py returning stored values. Behavioural equality (contains on probes, log_v, identical sample streams under a cloned generator) is decided on the implementation. No axioms.',
+             tech='Coq proof (structural round-trip and update theorems over an abstract HDF5 tree) + in-Coq evaluation of the codec on real written groups'),
 }
 props = [json.loads(l) for l in open(os.path.join(V, 'properties.jsonl'))]
 NA = {}
